@@ -420,17 +420,23 @@ class VarcharProfiler(BaseProfiler):
 class DateProfiler(BaseProfiler):
     def __call__(self, column_data: List[Any]):
         self.profile.count = len(column_data)
-        if hasattr(column_data[0], "value"):
-            # pandas Timestamps: `.value` is epoch nanoseconds, the profile is kept in epoch seconds
-            column_data = (
-                numpy.array([v.value for v in column_data if v is not None], dtype="int64")
-                .astype("datetime64[ns]")
-                .astype("datetime64[s]")
-                .astype("int64")
-            )
-        else:
-            column_data = numpy.array(column_data, dtype="datetime64[s]").astype("int64")
-        column_data = column_data[~numpy.equal(column_data, -9223372036854775808)]
+        seconds = None
+        try:
+            if hasattr(column_data[0], "value"):
+                # pandas Timestamps: `.value` is epoch nanoseconds, the profile is kept in epoch seconds
+                seconds = (
+                    numpy.array([v.value for v in column_data if v is not None], dtype="int64")
+                    .astype("datetime64[ns]")
+                    .astype("datetime64[s]")
+                    .astype("int64")
+                )
+        except OverflowError:
+            # a Timestamp outside the 64-bit nanosecond range (1677-09-21 .. 2262-04-11) has no
+            # `.value`: numpy reads Timestamps as the datetimes they are
+            seconds = None
+        if seconds is None:
+            seconds = numpy.array(column_data, dtype="datetime64[s]").astype("int64")
+        column_data = seconds[~numpy.equal(seconds, -9223372036854775808)]
         self.profile.missing = self.profile.count - len(column_data)
         if len(column_data) > 0:
             numeric_profiler = NumericProfiler(self.column)
